@@ -62,7 +62,7 @@ ASSUMPTIONS = [
     "dask.get (synchronous scheduler) executes a materialised graph faithfully (C01)",
     "the shrinker only names the mechanism; the verdict comes from the unshrunk program",
 ]
-BUDGET = {"quick": 30, "thorough": 450}
+BUDGET = {"quick": 75, "thorough": 540}
 CASE_TIMEOUT = 90
 EXHAUSTIVE_SPACE = ("all 24 orderings of the 4 steps {x[['a','d']], x[x.a > 0], x.assign(a = x.d - x.a), x[x.a < 2]} x 3 "
                     "partitionings (1 partition; 3 partitions with known divisions; 4 row slices incl. an empty one with "
@@ -135,7 +135,7 @@ def cases(tier, seed):
         yield {"family": "perm", "order": order, "prog": P.perm_program(order), "ord": True, "idx": True,
                "fseed": rng.randrange(10 ** 6), "nrows": n, "index": rng.choice(INDEXES), "part": rand_partition_desc(rng, n)}
     # ---- typed random programs ------------------------------------------------------------------
-    k = 1500 if tier == "quick" else 24000
+    k = 1000 if tier == "quick" else 16000
     for j in range(k):
         fam = "chain" if j % 2 == 0 else "dag"
         prog, m = P.random_program(rng, fam)
